@@ -61,7 +61,11 @@ def run(pid, seed, iters, known=False, timeout=240):
             except Exception:
                 pass
     if r.returncode not in (0, 1):
-        # the real code crashed (panic / abort) while replaying: that is a concrete failing run as well
+        # the process died (abort / segfault / memory cap; panics of the crate are caught inside fb-replay and attributed there):
+        # memory corruption in the real code.  That is a concrete failing run for the memory-safety properties only - for any
+        # other property the search simply did not finish (None: undecided, never an alarm).
+        if pid not in ("C03", "C06", "C07", "C08"):
+            return None, "timeout"
         return {"property": pid, "scenario": "the real crate crashed while replaying random histories (exit status %d; address space capped at 3 GiB)" % r.returncode,
                 "history": [], "observed": (r.stderr or "")[-600:] or "killed / aborted without message (memory exhaustion)"}, " ".join(cmd)
     return None, " ".join(cmd)
